@@ -1,4 +1,16 @@
 import Ymq.Props.C03
+import Ymq.Props.C03Qs64
 #print axioms Ymq.C03.factor_total
 #print axioms Ymq.C03.factorImpl_total
 #print axioms Ymq.C03.factor_total_of_input
+#print axioms Ymq.C03Qs64.qs64_relations_valid
+#print axioms Ymq.C03Qs64.qs64_relations_finalRel
+#print axioms Ymq.C03Qs64.qs64_uses_final_step
+#print axioms Ymq.C03Qs64.qs64_proper
+#print axioms Ymq.C03Qs64.qs64_improper_when_n_eq_k
+#print axioms Ymq.C03Qs64.admissible_not_square
+#print axioms Ymq.C03Qs64.admissible_of_guards
+#print axioms Ymq.C03Qs64.qs64_no_panic_of_nonsquare
+#print axioms Ymq.C03Qs64.qs64_no_panic
+#print axioms Ymq.C03Qs64.qs64_square_nk_counterexample
+#print axioms Ymq.C03Qs64.usesQs64_of_model
